@@ -92,6 +92,24 @@ fn gen_data_complete(ctx: &GenCtx) -> Vec<Value> {
             }
         }
     }
+    // payloads whose length sits on / next to the 512-byte and 8 KiB internal buffers, with every kind of ending
+    let mut b = 0u64;
+    for len in [510usize, 511, 512, 513, 1023, 1024, 1025, 1535, 1536, 2048, 8191, 8192, 8193] {
+        for ending in ["\r", "\n", "\r\n", "x", " ", "\r\r", "\n\r"] {
+            for rep in 0..2 {
+                let mut p = Planner::new(ctx.seed, "c06.boundary", b);
+                b += 1;
+                let mut s: Vec<u8> = Vec::with_capacity(len);
+                while s.len() + ending.len() < len {
+                    s.push(if rep == 1 && s.len() % 61 == 60 { b'\n' } else { b'a' });
+                }
+                s.extend_from_slice(ending.as_bytes());
+                let key = *p.pick(&["ed25519-v4", "ed25519-v6"]);
+                plans.push(json!({"mode":"complete","iface": *p.pick(&IFACES), "key": key, "hash": hash_for(key, &mut p),
+                    "payload": {"hex": hex::encode(&s)}, "src_sched": p.sched().to_json(), "rng_key": p.u64()}));
+            }
+        }
+    }
     let n = ctx.n(25_000, 600_000);
     for j in 0..n {
         let mut p = Planner::new(ctx.seed, "c06.random", j as u64);
@@ -110,8 +128,23 @@ fn gen_data_complete(ctx: &GenCtx) -> Vec<Value> {
 }
 
 fn gen_data_sound(ctx: &GenCtx) -> Vec<Value> {
-    let n = ctx.n(600, 60_000);
-    (0..n)
+    let n = ctx.n(450, 60_000);
+    let mut plans: Vec<Value> = Vec::new();
+    // contents one octet short of / exactly on the 512-byte and 8 KiB internal buffers: the
+    // extension / truncation mutations then cross the boundary
+    let mut b = 0u64;
+    for len in [511usize, 512, 1023, 1024, 8191, 8192] {
+        for ending in ["a", "\r", "\n", " "] {
+            let mut p = Planner::new(ctx.seed, "c02.boundary", b);
+            b += 1;
+            let mut s = vec![b'a'; len - ending.len()];
+            s.extend_from_slice(ending.as_bytes());
+            let iface = *p.pick(&["detached_text", "detached_text", "cleartext", "config_sign_text", "builder_text", "detached_bin"]);
+            plans.push(json!({"mode":"sound","iface": iface, "key": *p.pick(&["ed25519-v4", "ed25519-v6"]), "hash": "sha256", "no_issuer": false,
+                "payload": {"hex": hex::encode(&s)}, "src_sched": {"k":"full"}, "rng_key": p.u64(), "pick": p.u64(), "boundary": true}));
+        }
+    }
+    plans.extend((0..n)
         .map(|j| {
             let mut p = Planner::new(ctx.seed, "c02.data", j as u64);
             let alphabet: [&[u8]; 7] = [b"\r", b"\n", b" ", b"-", "é".as_bytes(), b"a", b"b"];
@@ -124,8 +157,8 @@ fn gen_data_sound(ctx: &GenCtx) -> Vec<Value> {
             let key = if p.chance(2, 3) { *p.pick(&["ed25519-v4", "ed25519-v6"]) } else { *p.pick(&SIGN_KEYS) };
             json!({"mode":"sound","iface": *p.pick(&IFACES), "key": key, "hash": hash_for(key, &mut p), "no_issuer": p.chance(1,4),
                 "payload": {"hex": hex::encode(&s)}, "src_sched": {"k":"full"}, "rng_key": p.u64(), "pick": p.u64()})
-        })
-        .collect()
+        }));
+    plans
 }
 
 // ------------------------------------------------------------------ signing
@@ -482,7 +515,13 @@ fn run_data(plan: &Value, rec: &mut Rec) {
         muts.push(o);
     } else {
         let n = content.len();
-        let bits: Vec<usize> = if n <= 40 { (0..n * 8).collect() } else { (0..160).map(|i| (i * 7919 + ju64(plan, "pick") as usize) % (n * 8)).collect() };
+        let bits: Vec<usize> = if n <= 40 {
+            (0..n * 8).collect()
+        } else if jbool(plan, "boundary") {
+            (0..24).map(|i| (i * 7919 + ju64(plan, "pick") as usize) % (n * 8)).chain((n * 8 - 16)..n * 8).collect()
+        } else {
+            (0..160).map(|i| (i * 7919 + ju64(plan, "pick") as usize) % (n * 8)).collect()
+        };
         for b in bits {
             muts.push(json!({"m":"content_flip","bit":b}));
         }
@@ -867,6 +906,14 @@ fn cert_verify(cs: &CertSig, sig: &Signature, k: &PoolKey, other: &PoolKey, tamp
     }
 }
 
+fn cert_shape(c: &SignedPublicKey) -> Vec<usize> {
+    let mut v = vec![c.details.users.len(), c.details.user_attributes.len(), c.details.direct_signatures.len(), c.details.revocation_signatures.len(), c.public_subkeys.len()];
+    v.extend(c.details.users.iter().map(|u| u.signatures.len()));
+    v.extend(c.details.user_attributes.iter().map(|u| u.signatures.len()));
+    v.extend(c.public_subkeys.iter().map(|u| u.signatures.len()));
+    v
+}
+
 trait AnyKey {}
 impl<T> AnyKey for T {}
 
@@ -1031,13 +1078,16 @@ fn run_cert(plan: &Value, rec: &mut Rec) {
     }
     // whole-certificate: flip bits in the serialized certificate, parse, verify_bindings must fail
     if kind == "self_cert" && plan.get("only").map(|o| jstr(o, "m") == "cert").unwrap_or(true) {
+        // certificates with user attributes stand in for the plain pool key of the same version
+        let k = if ju64(plan, "rng_key") % 3 == 0 { keys::get(if k.v6 { "attr-v6" } else { "attr-v4" }) } else { k };
         if let Ok(bytes) = k.public.to_bytes() {
+            let Ok(original) = SignedPublicKey::from_bytes(&bytes[..]) else { return };
             let Ok(pk) = deframe(&bytes) else { return };
             // hashed material: key packets' bodies, user id bodies; signature packets via locate
             let mut offs: Vec<usize> = Vec::new();
             for p in &pk {
                 match p.tag {
-                    6 | 14 | 13 => offs.extend(p.body_start..p.end),
+                    6 | 14 | 13 | 17 => offs.extend(p.body_start..p.end),
                     2 => {
                         if let Some(f) = locate_sig_fields(&p.body) {
                             offs.extend(f.hashed.iter().map(|o| p.body_start + o));
@@ -1048,7 +1098,7 @@ fn run_cert(plan: &Value, rec: &mut Rec) {
             }
             let pick: Vec<usize> = match plan.get("only") {
                 Some(o) => vec![jusize(o, "at")],
-                None => offs.iter().step_by((offs.len() / 120).max(1)).cloned().collect(),
+                None => offs.iter().step_by((offs.len() / 260).max(1)).cloned().collect(),
             };
             for at in pick {
                 for bit in [0usize, 6] {
@@ -1063,9 +1113,14 @@ fn run_cert(plan: &Value, rec: &mut Rec) {
                     rec.count("fault:F-cert-flip");
                     let mut vplan = plan.clone();
                     vplan["only"] = json!({"m":"cert","at":at,"bit":bit});
+                    // (a flip that parsing normalizes away - e.g. an MPI bit count - leaves the parsed value
+                    // equal to the original and is not a change of the signed object)
                     let r = guard(|| match SignedPublicKey::from_bytes(&b2[..]) {
                         Err(_) => false,
-                        Ok(c) => c.verify_bindings().is_ok() && c.to_bytes().map(|x| x == b2).unwrap_or(false),
+                        // rpgp drops components whose signatures it cannot use (lenient import): what then
+                        // verifies is a smaller certificate, not the damaged one.  Only a certificate that kept
+                        // every component and signature, differs in value and still verifies counts.
+                        Ok(c) => cert_shape(&c) == cert_shape(&original) && c != original && c.verify_bindings().is_ok(),
                     });
                     match r {
                         Err(p) => rec.violation("panic", &norm_loc(&p.loc), format!("parsing/verifying a damaged certificate panicked: {}", p.msg), vplan),
